@@ -83,7 +83,15 @@ def scenario_transfer(rng, d):
         lines.append("(def c (op \"read-all\" (ev/read rd :all))) (when c (buffer/push got c)) (print \"EOF \" (op \"read-after-all\" (ev/read rd 10)))")
     lines.append("(verdict \"transfer\" got payload)")
     lines.append("(finish)")
-    meta = dict(template="transfer", kind=kind, size=size, wchunk=wchunk, rmode=rmode, rsize=rsize, slow=slow)
+    # sockets have a second family of entry points (net/read, net/chunk, net/write and the stream methods) with their own state machines
+    api = "ev"
+    if kind in ("unix", "tcp"):
+        api = rng.choice(["ev", "net", "method"])
+        if api == "net":
+            lines = [l.replace("(ev/read rd", "(net/read rd").replace("(ev/chunk rd", "(net/chunk rd").replace("(ev/write wr", "(net/write wr") for l in lines]
+        elif api == "method":
+            lines = [l.replace("(ev/read rd", "(:read rd").replace("(ev/chunk rd", "(:chunk rd").replace("(ev/write wr", "(:write wr") for l in lines]
+    meta = dict(template="transfer", kind=kind, size=size, wchunk=wchunk, rmode=rmode, rsize=rsize, slow=slow, api=api)
     return "\n".join(lines) + "\n", meta
 
 
